@@ -52,4 +52,6 @@ def astype(x, t):
         out[idx] = cast_scalar(xa[idx], name)
     if name in ("i64", "i32", "int"):
         return out.astype(_np.int64)
-    return out
+    from . import fs
+    full = {"f32": "float32", "i16": "int16", "i8": "int8"}.get(name)
+    return fs.tag(out, full) if full else out
